@@ -395,6 +395,10 @@ def gen(tier, rng, boost=1):
 
 
 # ---------------------------------------------------------------------------- oracle
+_variant_results = {}     # variant line -> harness result (filled in one batch)
+_variant_pending = set()
+
+
 def klass(r):
     if r.startswith("ok:"):
         return r
@@ -414,6 +418,9 @@ def judge(case, impl, asis, spec):
     if a == b:
         return Verdict(True, None)
     what = "+".join(case.note.get("rewrites", []))
+    for v in case.note.get("variants", {}).values():
+        if v not in _variant_results:
+            _variant_pending.add(v)      # compiled in one batch when `explained` is first asked
     if a.startswith("ok:") and b.startswith("ok:"):
         return Verdict(True, f"output changes under a meaning-preserving rewrite ({what})")
     return Verdict(True, f"compilation result class changes under a meaning-preserving rewrite ({what}): {a[:5]} vs {b[:5]}")
@@ -431,8 +438,12 @@ def explained(case, r, live):
     line = case.note.get("variants", {}).get(",".join(sub))
     if line is None:
         return False
-    res = vlib.run_impl([line], CASE_TIMEOUT)[0]
-    return judge(Case(line), res, None, None).fails is None
+    if line not in _variant_results:
+        todo = sorted(_variant_pending | {line})
+        for l, r_ in zip(todo, vlib.run_impl(todo, CASE_TIMEOUT)):
+            _variant_results[l] = r_
+        _variant_pending.clear()
+    return judge(Case(line), _variant_results[line], None, None).fails is None
 
 
 def nontrivial(case, impl, spec):
